@@ -258,6 +258,10 @@ def oracle_c04(E, ctx):
             E.fail("every-reference-label-inside-a-segment's-span-accounted-exactly-once")
         if not okq:
             E.fail("every-query-label-inside-a-segment's-span-accounted-exactly-once")
+    rl = [position_labels(p)[1] for seg in row.segments for p in seg.positions if position_labels(p)[1] is not None]
+    ql = [position_labels(p)[2] for seg in row.segments for p in seg.positions if position_labels(p)[2] is not None]
+    if len(set(rl)) != len(rl) or len(set(ql)) != len(ql):
+        E.fail("no-label-is-counted-twice-in-one-record-(paired-or-unpaired)")
     allpairs = [(position_labels(p)[1], position_labels(p)[2]) for seg in row.segments for p in seg.positions if position_labels(p)[0] == "P"]
     if len({a for a, _ in allpairs}) != len(allpairs) or len({b for _, b in allpairs}) != len(allpairs):
         E.fail("no-label-is-counted-in-two-pairs-of-one-record")
